@@ -365,9 +365,12 @@ PROPS["C07"]["engines"].append(handlers("C07", 3000, 60000))
 CATCHUP = {"engine": "catchup", "bin": "h2.test", "quick": ["-n", "4000"], "thorough": ["-n", "80000"]}
 PROPS["C12"]["engines"].append(CATCHUP)
 PROPS["C04"]["engines"].append(CATCHUP)
+PROPS["C05"]["engines"].append(CATCHUP)
+PROPS["C03"]["engines"].append(CATCHUP)
+PROPS["C05"]["assumptions"].append("catch-up engine here too: what the leader's replication routine enters into the commitment table for a follower (AppendEntries and InstallSnapshot answers) is compared with the model and judged against what that follower holds")
 PROPS["C12"]["assumptions"].append("catch-up engine: the leader's real replicateTo (non-pipelined) against a real follower's handlers, model (SV.replicateTo = leader-side loop composed with the handler model) compared request by request; the pipelined mode is exercised only by the cluster engine")
 
-def leader(pid, nq=3000, nt=60000):
+def leader(pid, nq=3000, nt=30000):
     return {"engine": "leader", "driver": "leader-" + pid, "bin": "h2.test", "quick": ["-n", str(nq)], "thorough": ["-n", str(nt)]}
 
 LEADER_NOTE = "leader engine: the real runLeader / leaderLoop on one server whose peers are played by the harness (every replication and heartbeat request parked in the transport, no virtual time passing), one loop iteration per stimulus, compared with SV.stepLeader observation by observation (durable writes, volatile state, FSM calls, resolved futures with index and response, commitment table, in-flight list, NotifyCh); the replication routines are the environment (their requests are judged against the leader's log, their acknowledgements are inputs); leadership transfer, user Restore and the lease timer are not stepped here"
